@@ -58,6 +58,8 @@ func (p *HandlerChangeDest) connectNewDest(ctx context.Context, newDestURL *url.
 	select {
 	case err := <-autoReadDone:
 		handshakeTask.Stop()
+		// the connection that failed the handshake is not handed to anybody: close it here
+		newDest.conn.Close()
 		// if newDestRunTask finished first there was reading error
 		// TODO: fix the case when err == nil
 		return nil, lib.WrapError(ErrConnectDest, err)
@@ -65,6 +67,7 @@ func (p *HandlerChangeDest) connectNewDest(ctx context.Context, newDestURL *url.
 	}
 
 	if handshakeTask.Err() != nil {
+		newDest.conn.Close()
 		return nil, lib.WrapError(ErrConnectDest, handshakeTask.Err())
 	}
 	p.proxy.logInfof("new destination connected url %s, localPort %s", newDestURL.String(), newDest.conn.LocalPort())
@@ -72,6 +75,7 @@ func (p *HandlerChangeDest) connectNewDest(ctx context.Context, newDestURL *url.
 	// stops temporary reading from newDest
 	err = newDest.AutoReadStop()
 	if err != nil {
+		newDest.conn.Close()
 		return nil, err
 	}
 	<-autoReadDone
